@@ -1,6 +1,9 @@
 //! Drivers: each one runs the real code on generated inputs and writes trace batches.
 
 pub mod bytecode;
+pub mod codecs;
+pub mod validators;
+pub mod checker;
 pub mod vmops;
 pub mod vmprog;
 
@@ -12,6 +15,9 @@ pub fn dispatch(driver: &str, args: &Args) -> i32 {
     match driver {
         "vmops" => vmops::main(args),
         "bytecode" => bytecode::main(args),
+        "codecs" => codecs::main(args),
+        "validators" => validators::main(args),
+        "checker" => checker::main(args),
         "vmprog" => vmprog::main(args),
         _ => {
             eprintln!("unknown driver {driver}");
